@@ -152,6 +152,43 @@ func vfOpenNode(path string, idx int, board *vfBoard) (*vfNodeEnv, error) {
 	return vfStartNode(base, path, idx, board)
 }
 
+// vfRestartNode: the process is gone; a new one starts on what the state directory held at that instant. The dead process
+// never closed its LevelDB handle, so the directory is copied byte for byte and the new process opens the copy (the executor's
+// LevelDB model treats "<dir>#<n>" as such a copy of <dir>).
+func vfRestartNode(path string, gen int, idx int, board *vfBoard) (*vfNodeEnv, error) {
+	np := path + "#r" + strconv.Itoa(gen)
+	if !vf.Symbolic() {
+		os.RemoveAll(np)
+		if err := vfCopyDir(path, np); err != nil {
+			return nil, err
+		}
+	}
+	return vfOpenNode(np, idx, board)
+}
+
+func vfCopyDir(from, to string) error {
+	if err := os.MkdirAll(to, 0o755); err != nil {
+		return err
+	}
+	ents, err := os.ReadDir(from)
+	if err != nil {
+		return err
+	}
+	for _, e := range ents {
+		if e.IsDir() {
+			continue
+		}
+		bz, err := os.ReadFile(from + "/" + e.Name())
+		if err != nil {
+			return err
+		}
+		if err := os.WriteFile(to+"/"+e.Name(), bz, 0o644); err != nil {
+			return err
+		}
+	}
+	return nil
+}
+
 // vfStartNode constructs all services afresh over an existing state store (= process start on an existing state dir).
 func vfStartNode(base state.State, path string, idx int, board *vfBoard) (*vfNodeEnv, error) {
 	user := state_machines.VFUser(idx)
